@@ -101,18 +101,22 @@ def _winit():
   alog.set_verbosity(alog.ERROR)
 
 
+def _mb(model):
+  return model if isinstance(model, str) else bytes(model)
+
+
 def fresh_quantize(model, recipe, cal, pol=None, current=None):
   """Bytes of a FRESH Quantizer given equal arguments under the policy currently in force. (The rule list is installed
   under the default policy, which accepts every rule of these recipes, then the current policy is restored: a store that
   was filled before a policy change cannot be re-created by loading under the new policy.)"""
   from ai_edge_quantizer import quantizer
   if pol is not None:
-    quantizer.Quantizer(bytes(model)).load_config_policy(pol["P0"])
+    quantizer.Quantizer(_mb(model)).load_config_policy(pol["P0"])
   try:
-    q = quantizer.Quantizer(bytes(model), copy.deepcopy(recipe))
+    q = quantizer.Quantizer(_mb(model), copy.deepcopy(recipe))
   finally:
     if pol is not None:
-      quantizer.Quantizer(bytes(model)).load_config_policy(pol[current])
+      quantizer.Quantizer(_mb(model)).load_config_policy(pol[current])
   return bytes(q.quantize(copy.deepcopy(cal)).quantized_model)
 
 
@@ -121,6 +125,13 @@ def _replay(item):
   trans, seed, model_kind = item
   model0, info, data0 = make_world(seed)
   world = {"model": bytearray(model0) if model_kind == "bytearray" else bytes(model0), "recipes": recipes(), "data": data0, "cals": [], "results": []}
+  import shutil
+  folder = tempfile.mkdtemp(prefix="c14_save_")
+  if model_kind == "path":
+    # the model handed over as a file path: the caller-owned object is the file (compared through `model_file`)
+    world["model"] = os.path.join(folder, "float_model_in.tflite")
+    open(world["model"], "wb").write(model0)
+    world["model_file"] = bytes(model0)
   snaps = copy.deepcopy(world)
   qs = {}
   problems = []
@@ -128,8 +139,6 @@ def _replay(item):
   hist = trans["hist"]
   pol = policy_files()
   quantizer.Quantizer(world["model"]).load_config_policy(pol["P0"])      # every history starts under the default policy
-  import shutil
-  folder = tempfile.mkdtemp(prefix="c14_save_")
   try:
     return _replay_steps(trans, world, snaps, qs, problems, hist, pol, folder)
   finally:
@@ -231,8 +240,12 @@ def _replay_steps(trans, world, snaps, qs, problems, hist, pol, folder):
       if bytes(k["obj"].quantized_model) != k["bytes"] or not deep_equal(k["obj"].recipe, k["recipe"]):
         problems.append(("result-mutated", "step %d %s modified the result returned by quantize() #%d" % (step + 1, act[:-1], j + 1)))
         k["bytes"], k["recipe"] = bytes(k["obj"].quantized_model), copy.deepcopy(k["obj"].recipe)
+    if "model_file" in world:
+      world["model_file"] = open(world["model"], "rb").read()
     # caller-owned objects untouched after every call
-    for name in ("model", "recipes", "data", "cals"):
+    for name in ("model", "model_file", "recipes", "data", "cals"):
+      if name not in world:
+        continue
       if not deep_equal(world[name], snaps[name]):
         problems.append(("input-mutated", "step %d %s modified caller-owned %s" % (step + 1, act, name)))
         snaps[name] = copy.deepcopy(world[name])
@@ -332,7 +345,7 @@ def main():
   keys_save = common.sample_keep(save_keys, 200 if args.tier == "quick" else 6000, args.seed)
   trans.update(trans_deep)
   keys = keys + keys_deep + keys_save
-  items = [(trans[k], args.seed, "bytes" if i % 3 else "bytearray") for i, k in enumerate(keys)]
+  items = [(trans[k], args.seed, ("bytearray", "bytes", "path", "bytes")[i % 4]) for i, k in enumerate(keys)]
   t0 = time.time()
   results = []
   with cf.ProcessPoolExecutor(max_workers=args.procs, initializer=_winit) as ex:
